@@ -25,6 +25,7 @@ type rcReq struct {
 	Subs  []string // filters (sub: "filter:qos")
 	Phase byte     // 'B' before Connect, 'S' connected after settling, 'N' connected immediately, 'O' when the current link is down, 'H' during the next reconnect handshake (CONNECT written, CONNACK not yet consumed)
 	Dup   bool     // publish: the caller's Message already has Dup=true (a forwarded / reused message)
+	ID    uint16   // publish: identifier the caller put on the message (0: let the client choose)
 }
 
 func (r rcReq) String() string {
@@ -42,21 +43,23 @@ func (r rcReq) String() string {
 }
 
 type rcCfg struct {
-	Reqs         []rcReq
-	Faults       env.FaultSet
-	KeepSession  bool
-	MethodB      bool
-	Clean        bool
-	AlwaysResub  bool
-	RespTimeout  time.Duration
-	ConnTimeout  time.Duration
-	PingInterval time.Duration
-	WaitBase     time.Duration
-	WaitMax      time.Duration
-	PushAfterAck []string       // messages "topic:payload:qos" the broker pushes after every accepting CONNACK
-	HandlerPhase byte           // 0: no handler; 'B' before Connect; 'C' after Connect
-	AfterConnect func(r *rcRun) // called by the main task right after Connect returned successfully
-	KeepAliveOpt uint16         // mqtt.WithKeepAlive(seconds) connect option (the reconnecting client derives its ping interval from it)
+	Reqs            []rcReq
+	Faults          env.FaultSet
+	KeepSession     bool
+	MethodB         bool
+	Clean           bool
+	AlwaysResub     bool
+	RespTimeout     time.Duration
+	RespTimeoutLate bool // assign RetryClient.ResponseTimeout only after Connect has returned
+	ConnTimeout     time.Duration
+	PingInterval    time.Duration
+	WaitBase        time.Duration
+	WaitMax         time.Duration
+	PushAfterAck    []string       // messages "topic:payload:qos" the broker pushes after every accepting CONNACK
+	HandlerPhase    byte           // 0: no handler; 'B' before Connect; 'C' after Connect
+	AfterConnect    func(r *rcRun) // called by the main task right after Connect returned successfully
+	PingDelay       time.Duration  // the broker answers PINGREQ after this delay
+	KeepAliveOpt    uint16         // mqtt.WithKeepAlive(seconds) connect option (the reconnecting client derives its ping interval from it)
 }
 
 type rcState struct {
@@ -112,7 +115,7 @@ func (r *rcRun) submit(i int) {
 	var err error
 	switch q.Kind {
 	case "p0", "p1", "p2":
-		err = r.rc.Publish(ctx, &mqtt.Message{Topic: "t/" + q.Tag, QoS: mqtt.QoS(q.Kind[1] - '0'), Payload: []byte(q.Tag), Dup: q.Dup})
+		err = r.rc.Publish(ctx, &mqtt.Message{Topic: "t/" + q.Tag, QoS: mqtt.QoS(q.Kind[1] - '0'), Payload: []byte(q.Tag), Dup: q.Dup, ID: q.ID})
 	case "sub":
 		var subs []mqtt.Subscription
 		for _, s := range q.Subs {
@@ -154,6 +157,7 @@ func rcExecuteInto(cfg *rcCfg, out **rcRun) *rcRun {
 	r.broker.Faults = cfg.Faults
 	r.broker.KeepSession = cfg.KeepSession
 	r.broker.MethodB = cfg.MethodB
+	r.broker.PingDelay = int64(cfg.PingDelay)
 	n := len(cfg.Reqs)
 	r.submitted, r.accepted, r.subErr = make([]bool, n), make([]bool, n), make([]error, n)
 	if len(cfg.PushAfterAck) > 0 {
@@ -192,6 +196,9 @@ func rcExecuteInto(cfg *rcCfg, out **rcRun) *rcRun {
 		return b, nil
 	})
 	r.retry = &mqtt.RetryClient{ResponseTimeout: cfg.RespTimeout}
+	if cfg.RespTimeoutLate {
+		r.retry.ResponseTimeout = 0
+	}
 	r.retry.OnError = func(err error) {
 		r.onErr = append(r.onErr, err)
 		r.onErrAt = append(r.onErrAt, vrt.Now())
@@ -261,6 +268,9 @@ func rcExecuteInto(cfg *rcCfg, out **rcRun) *rcRun {
 	r.connectOK = r.connErr == nil
 	if cfg.HandlerPhase == 'C' {
 		rc.Handle(h)
+	}
+	if cfg.RespTimeoutLate {
+		r.retry.ResponseTimeout = cfg.RespTimeout
 	}
 	if cfg.AfterConnect != nil && r.connectOK {
 		cfg.AfterConnect(r)
